@@ -53,7 +53,7 @@ func (C13) Meta() core.Meta {
 		Real:       []string{"filippo.io/age Encrypt/Decrypt", "internal/stream", "internal/format", "armor", "x/crypto"},
 		Stub:       []string{"destination writer (SimDisk)", "ciphertext source (SimSource)", "crypto/rand.Reader (tape)"},
 		FaultKinds: []string{"fault.dst.call.perm", "fault.dst.call.once", "fault.dst.byte.perm", "fault.dst.byte.once", "fault.src.sticky", "fault.src.once-data", "fault.src.once-eof"},
-		Probes:     []string{"probe.fault_in_header", "probe.fault_in_nonce", "probe.fault_in_payload", "probe.fault_at_eof", "probe.fault_in_armor_footer", "probe.error_from_Encrypt", "probe.error_from_Write", "probe.error_from_Close", "probe.error_from_armorClose", "probe.once_fault_swallowed_data_complete", "probe.src_error_from_Decrypt", "probe.src_error_from_Read"},
+		Probes:     []string{"probe.fault_in_header", "probe.fault_in_nonce", "probe.fault_in_payload", "probe.fault_at_eof", "probe.fault_in_armor_footer", "probe.error_from_Encrypt", "probe.error_from_Write", "probe.error_from_Close", "probe.error_from_armorClose", "probe.once_fault_swallowed_data_complete", "probe.src_error_from_Decrypt", "probe.src_error_from_Read", "probe.healthy_encryption_after_a_failed_one"},
 	}
 }
 
@@ -266,6 +266,7 @@ func (e C13) execDst(p *C13Plan, c *core.Ctx) *core.Verdict {
 	if pt, _, err := lib.RefOpen(base.Data, p.File.Armor, key); err != nil || !bytes.Equal(pt, P) {
 		return core.Fail("C13.baseline", "fault-free file not a valid file for P per reference: %v", err)
 	}
+	followUps := 0
 	for _, f := range e.dstFaults(p, base.Calls, len(base.Data)) {
 		if f == nil {
 			continue
@@ -320,6 +321,20 @@ func (e C13) execDst(p *C13Plan, c *core.Ctx) *core.Verdict {
 			v := core.Fail("C13.dst.notsticky", "stream writer recovered after a failure: %s; fault %+v", res.StickyDetail, *f)
 			v.Narrow = narrow()
 			return v
+		}
+		// the caller gives up on that destination and encrypts again to a healthy one: a failure must not
+		// leave anything behind that spoils the next file (every 16th fault point in sweeps, always otherwise)
+		followUps++
+		if fired && (!p.Sweep || followUps%16 == 1) {
+			d2 := seam.NewDisk(nil, nil)
+			r2 := lib.Encrypt(p.File, p.Segs, d2, seam.NewTape(p.File.Tape+1), nil)
+			c.Stats.Inc("probe.healthy_encryption_after_a_failed_one")
+			pt, _, err := lib.RefOpen(d2.Data, p.File.Armor, key)
+			if r2.AnyErr() || err != nil || !bytes.Equal(pt, P) {
+				v := core.Fail("C13.dst.poisoned_next", "after an encryption that hit destination fault %+v, the next encryption to a healthy destination reported %v and its output is not a complete valid file (ref: %v)", *f, r2.AnyErr(), err)
+				v.Narrow = narrow()
+				return v
+			}
 		}
 	}
 	return nil
